@@ -143,8 +143,8 @@ def model_tie(ctx, cases, lines):
             ctx.coverage["straight_not_straight"] = ctx.coverage.get("straight_not_straight", 0) + 1
             continue
         ks = [r["k"] for r in d["vmk"]]
-        model_in.append(H.poll_model_line(fns, H.xhex("@main_main"), ks))
-        model_in.append(H.poll_model_line(fns, H.xhex("@main_@init"), []))
+        model_in.append(H.poll_model_line(fns, H.xhex("@main.main"), ks))
+        model_in.append(H.poll_model_line(fns, H.xhex("@main.@init"), []))
         idx.append((i, d))
     if not model_in:
         return
